@@ -52,17 +52,24 @@ def parseSel (req : Json) : R (Option (List Int)) := do
 def handle (op : String) (req : Json) : R Json := do
   match op with
   | "c08.case" =>
-    -- render the acquisition (specification), run the mechanism on the rendered log and signal
+    -- render the acquisition (specification), write the log as text, run the mechanism on the text and the signal
     let a ← fld req "acq" >>= parseAcq
     let sel ← parseSel req
     let squeeze ← getBool req "squeeze"
-    let nanMod ← getNat req "nan_mod"
-    let nanRem ← getNat req "nan_rem"
-    let isnan : Nat → Bool := fun k => nanMod != 0 && k % nanMod == nanRem
+    -- one list per element of the signal: the indices of the samples that are NaN in that element
+    let nan ← getList (asList asNat) req "nan"
+    let masks : List (Nat → Bool) := nan.map (fun l => fun k => l.contains k)
+    let isnan := allNan masks
+    -- ms from 1970-01-01 00:00 to laser clock 0
+    let base ← getInt req "base"
     match render a sel with
     | none => pure (jObj [("rendered", jBool false)])
     | some rd =>
-      let hyp := truthHyp a sel
+      let textOk := textHyp base rd.rows
+      -- the one part of `textHyp` that is a limit of the reader, not of the instrument: 16 characters of spot size
+      let spotOk := rd.rows.all (fun r => decide (r.spot.toList.length ≤ 16))
+      let truthOk := truthHyp a sel
+      let hyp := truthOk && textOk
       -- how the caller holds the signal (array shape) and describes its clock (stamps / interval)
       let shape ← getList asNat req "shape"
       let clock ← getStr req "clock"
@@ -73,20 +80,29 @@ def handle (op : String) (req : Json) : R Json := do
         | "interval", some dt => pure (Clock.interval dt)
         | "interval", none => pure (Clock.stamps rd.times)   -- not a uniformly sampled signal: reported, not compared
         | c, _ => throw s!"bad clock {c}"
-      let model := syncClock rd.rows sel shape clk rd.delay isnan squeeze
+      let lines := renderLog base (withExtras false rd.rows)
+      let model := syncText lines sel shape clk rd.delay isnan squeeze
       let box := truthBox a sel
       let full := truthImage a sel box.1 box.2
-      let specImg := if squeeze then (squeezeImg isnan box.2 full) else (full, box.2)
+      let specImg := if squeeze then (squeezeSpec isnan box.2 full, (keptCols isnan box.2 full).length) else (full, box.2)
       let o := truthOrigin a sel
       let spot : List Rat := match (selectedPatterns a sel).head? with
         | some p => [(p.sxu : Rat) / 10000, (p.syu : Rat) / 10000]
         | none => []
-      pure (jObj [("rendered", jBool true), ("hyp", jBool hyp),
+      pure (jObj [("rendered", jBool true), ("hyp", jBool hyp), ("truth_ok", jBool truthOk), ("text_ok", jBool textOk), ("spot_ok", jBool spotOk),
         ("interval", jOpt jRat interval), ("shape_ok", jBool shapeOk),
-        ("rows", jList jRow rd.rows), ("times", jList jRat rd.times), ("delay", jRat rd.delay),
+        ("rows", jList jRow rd.rows), ("lines", jList (fun l => jStr (String.ofList l)) lines),
+        ("times", jList jRat rd.times), ("delay", jRat rd.delay),
         ("model", jResult model),
         ("spec", jObj [("shape", jList jNat [specImg.1.length, specImg.2]), ("pixels", jImg specImg.1),
                        ("origin", jList jInt [o.1, o.2]), ("spot", jList jRat spot)])])
+  | "c08.rows" =>
+    -- the log rows of an acquisition alone (the harness places the date of the run relative to them)
+    let a ← fld req "acq" >>= parseAcq
+    let sel ← parseSel req
+    match render a sel with
+    | none => pure (jObj [("rendered", jBool false)])
+    | some rd => pure (jObj [("rendered", jBool true), ("rows", jList jRow rd.rows)])
   | "c08.sync" =>
     -- the mechanism alone on an explicit log and signal
     let rows ← getList parseRow req "rows"
@@ -98,10 +114,16 @@ def handle (op : String) (req : Json) : R Json := do
       | j => Clock.interval <$> asRat j
     let delay ← getRat req "delay"
     let squeeze ← getBool req "squeeze"
-    let nanMod ← getNat req "nan_mod"
-    let nanRem ← getNat req "nan_rem"
-    let isnan : Nat → Bool := fun k => nanMod != 0 && k % nanMod == nanRem
+    let nan ← getList (asList asNat) req "nan"
+    let isnan := allNan (nan.map (fun l => fun k => l.contains k))
     pure (jObj [("model", jResult (syncClock rows sel shape clk delay isnan squeeze))])
+  | "c08.parse" =>
+    -- the reader alone on explicit data lines: the rows it returns (null = a line that cannot be read)
+    let lines ← getList asStr req "lines"
+    pure (jObj [("rows", jOpt (jList jRow) (parseLog (lines.map String.toList)))])
+  | "c08.stamp" =>
+    let t ← getNat req "t"
+    pure (jObj [("text", jStr (String.ofList (fmtStamp t))), ("back", jOpt jNat (parseStamp (fmtStamp t)))])
   | "c08.pix" =>
     let q ← getRat req "q"
     pure (jObj [("round6trunc", jInt (pixIdx q)), ("trunc", jInt (pixIdxTrunc q))])
